@@ -189,6 +189,9 @@ func (st *State) rangeNext(x *ssa.Next) Value {
 	kt := st.mapKeyTerm(k, mt)
 	dom, val, _, _ := st.mapHeaps(mt)
 	st.assume(Implies(ok, And(Ne(src.Tm, IntLit(0)), Select(Select(dom, src.Tm), kt))))
+	// foreach rule (contract clause `loop N: foreach k int :: P(k)`): Go's range visits every key, so when the iteration
+	// is over P holds for every key of the map, provided each iteration establishes P for its key (checked at the back edge)
+	st.foreachAtNext(x, src, kt, ok, dom)
 	v := Value{T: mt.Elem(), Tm: Select(Select(val, src.Tm), kt)}
 	st.assumeTypeInvGuarded(v, ok)
 	return Value{T: x.Type(), Tup: []Value{{T: B, Tm: ok}, k, v}}
@@ -272,4 +275,46 @@ func (st *State) selectOp(x *ssa.Select) bool {
 	fr.regs[x] = Value{T: x.Type(), Tup: tup}
 	fr.idx++
 	return false
+}
+
+func (st *State) foreachAtNext(x *ssa.Next, src Value, kt Term, ok Term, dom Term) {
+	fr := st.frame
+	if fr.spec == nil {
+		return
+	}
+	loops := st.eng().loopsOf(fr.fn)
+	var li *loopInfo
+	for _, l := range loops {
+		if l.body[x.Block()] {
+			if li == nil || len(l.body) < len(li.body) {
+				li = l
+			}
+		}
+	}
+	if li == nil {
+		return
+	}
+	ls := fr.spec.Loops[li.ordinal]
+	if ls == nil || len(ls.Foreach) == 0 {
+		return
+	}
+	if fr.foreachKey == nil {
+		fr.foreachKey = map[int]Term{}
+	}
+	fr.foreachKey[li.ordinal] = kt
+	for _, c := range ls.Foreach {
+		// c.E is "forall k int :: P(k)": at exit, for all keys in the domain
+		q := c.E
+		if q.Kind != EQuant || len(q.Bound) != 1 {
+			panic(specErr("foreach clause must bind exactly one key variable"))
+		}
+		env := st.newEnv(fr, nil)
+		kv := Term{"k!fe", SInt}
+		env.vars[q.Bound[0].Name] = Value{T: mathInt, Tm: kv}
+		env.inQuant++
+		body := env.evalBool(q.Args[0])
+		env.inQuant--
+		st.assumeAll(env.defs)
+		st.assume(Implies(Not(ok), Forall([]Term{kv}, Implies(And(Ne(src.Tm, IntLit(0)), Select(Select(dom, src.Tm), kv)), body))))
+	}
 }
